@@ -169,6 +169,9 @@ func execute(r *Run) *Result {
 			return res
 		}
 		stdin = b
+		// the environment switch also quietens the runtime's background activity (see sim/rt); the
+		// node re-seeds the map stream itself when the job starts
+		env = append(env, "VERIFMAPSEED=0")
 	} else {
 		if r.RealEx {
 			argv = append([]string{filepath.Join(binDir, "k8snetpolicy.sim")}, r.CLI...)
